@@ -22,7 +22,7 @@ from props.c15 import make_dumper
 
 HEADER = """From Coq Require Import Reals ZArith List Bool Lra.
 From Interval Require Import Tactic.
-From WNTRV Require Import Lib.Expr Lib.ExprR Gen.Formulas Lib.Spline Lib.Sched C15.Model C15.Proofs C08.Model C08.Proofs.
+From WNTRV Require Import Lib.Expr Lib.ExprR Gen.Formulas Lib.Spline Lib.SplineMono Lib.Sched C15.Model C15.Proofs C08.Model C08.Proofs C08.Mono.
 Import ListNotations.
 Local Open Scope R_scope.
 Ltac unfold_model := cbv beta iota zeta delta [evalR eval usemR bsemR leafR cst is_const_leaf Nat.eqb cond_eval cond_select option_map].
@@ -40,7 +40,10 @@ Ltac prune_dec := repeat match goal with
 Ltac model_side := unfold leak_row, reported_leak, leak_rate, ldelta, lslope, g2, c_leak_delta, c_leak_slope; prune_dec;
   unfold leak_coeffs, cubic_spline, poly, c_leak_delta, c_leak_slope; cbv zeta;
   repeat match goal with |- context[pw ?a ?b] => rewrite (pw_pos a b) by interval end.
-Ltac solve_case := first [ vm_compute; reflexivity | unfold_model; repeat resolve1; model_side; interval with (i_prec 70) ].
+Ltac solve_case := match goal with
+  | |- leak_box _ _ => unfold leak_box, lsec, lf2, lslope, ldelta, c_leak_slope, c_leak_delta; interval
+  | _ => first [ vm_compute; reflexivity | unfold_model; repeat resolve1; model_side; interval with (i_prec 70) ]
+  end.
 """
 TACTIC = "solve_case"
 
@@ -59,7 +62,7 @@ def check(run, replay=None):
     errs = regen(["Formulas.v"], common.REPO)
     for e in errs:
         run.tie_broken("translator refused the current source (model is stale)", e)
-    ok, log, fails = common.coq_make(["theories/C08/Proofs.vo", "theories/C15/Proofs.vo"])
+    ok, log, fails = common.coq_make(["theories/C08/Proofs.vo", "theories/C08/Mono.vo", "theories/C15/Proofs.vo"])
     if not ok:
         for f, ln, msg in fails:
             run.tie_broken("proof no longer checks against the regenerated formulas: %s line %s: %s" % (f, ln, common.theorem_line(f, ln)), msg)
@@ -94,6 +97,8 @@ def check(run, replay=None):
                 run.violation("no_leak_row_for_active_leak", "no leak row is built for an active leak on %s" % n, input={"node": n})
                 continue
             area, cd = par[n]
+            # the premise of C08_leak_monotone for this leak: then the discharge is non-decreasing in the pressure everywhere
+            add("leak_box %s %s" % (R(area), R(cd)), {"check": "monotonicity premise (leak_box)", "node": n, "area": area, "cd": cd}, True)
             elev = wn.get_node(n).elevation
             hobj = m.head[n] if n == "J" else m.source_head[n]
             qv = m.leak_rate[n]
@@ -191,4 +196,8 @@ def check(run, replay=None):
             run.discharged += 1
         elif cid in res_:
             m = meta[cid]
+            if m["check"].startswith("monotonicity premise"):
+                run.obligations -= 1          # outside the box the monotonicity theorem simply does not apply to this leak
+                run.count("leak_box not established for a leak")
+                continue
             run.violation("leak_" + m["check"].replace(" ", "_"), "leak: %s does not match the model" % m["check"], input=m)
